@@ -21,7 +21,10 @@ RULE = ("kinds: enum (all indices 0..C(n,k)-1 through the real get_combination_a
         "is the estimator over exactly the produced triples); scorer_history (ONE GaussianDBALScorer object scoring 2-4 "
         "problems with different numbers of posterior samples, budget covering all triples: each score must be the "
         "estimator over all triples of its own call). "
-        "Non-trivial: C(n,k) >= 2 and index in range (enum: C(n,k) >= 2; use: n_thetas >= 3).")
+        "Non-trivial: C(n,k) >= 2 and index in range (enum: C(n,k) >= 2; use: n_thetas >= 3).  "
+        "Added after gap review g2: use at production size (n_thetas 400 and 2400, budget 50, one plate x one experiment: C(2400,3) = 2.3e9 > 2^31, "
+        "so rng.choice answers with 32-bit-overflowing np.int64 indices that go straight into the unranking; numpy's own answer and the "
+        "adversarial 'tail' answer); unrank / succ with n and / or the index handed over as np.int64 (k <= 3, a tenth of the sampled cases).")
 THEOREMS = {
     "C15_model_is_source_loops": "round-1 link, kept: the model's three loops equal, iteration by iteration, the loop bodies / conditions py2coq re-reads from generate_combination_at_sorted_index (Generated/SrcArithC15.v); subsumed by the whole-function link below",
     "C15_model_is_source_generate_combination_at_sorted_index_any_n": "the Gallina translation of the WHOLE generator generate_combination_at_sorted_index regenerated from /repo's scoring/gaussian_dbal.py on this run (Generated/SrcUnrank.v: the product loop over zip(range(n, n-k, -1), range(1, k+1)), `for k in range(k, 0, -1)` with the loop variable shadowing the parameter, the `while current_index - n_ck > index` loop on an explicit fuel parameter, every // and % checked = ZeroDivisionError tag 8, `yield n`) equals the model unrank index n (Z.to_nat k) for ALL integers index, n, k and every fuel > n + 1, wherever the model's own fuel is not exhausted",
@@ -45,12 +48,19 @@ THEOREMS = {
     "C15_triples_distinct_complete": "duplicate-free in-range indices give pairwise distinct in-range triples a>b>c; all triples when there are C(n,3) indices",
     "C15_dbal_triples": "use site: for every rng.choice answer obeying numpy's contract the scorer's triples are distinct, in range, min(C(n,3),max_combos) many, and all triples when max_combos >= C(n,3)",
     "C15_dbal_triples_too_few_thetas": "use site: fewer than 3 thetas is refused",
+    "C15_comb3_is_binomial": "scipy's comb(n, 3, exact=True) as the translated use site renders it (n(n-1)(n-2)/6, 0 below 3) is the binomial coefficient C(n,3) of all the statements, for every n >= 0",
+    "C15_source_dbal_triples": "use site READ ON THE TRANSLATED SOURCE: for n_thetas >= 3, any budget >= 1 and EVERY rng.choice answer obeying numpy's contract, src_kernel_triples (the translation, regenerated on this run, of the run `n_plates, n_thetas, ... = predictions.shape` .. `idx3 = np.array(idx3)` of dbal_fast_gauss_scoring_vectorized) returns without error three index arrays whose rows are min(C(n,3), budget) pairwise distinct triples a > b > c inside range(n_thetas), and ALL such triples when the budget covers C(n,3)",
+    "C15_dbal_triples_is_source": "the hand-written twin Binom.dbal_triples (subject of C15_dbal_triples) and the translated run deliver the same triples for the same rng.choice answer",
 }
 ASSUMPTIONS = [
     "Python int arithmetic is unbounded and // , % are floor division / modulo with the divisor's sign (= Coq Z.div, Z.modulo)",
     "rng.choice(N, size=m, replace=False) returns m distinct values of range(N) (checked on every recorded draw)",
     "scipy.special.comb(n, 3, exact=True) = C(n,3) (checked against math.comb and the model on every use case)",
     "n < 0 is outside the property's quantifier and not exercised (the Python loop may not terminate there)",
+    "n handed over as a numpy integer turns `n_ck *= n - k` into int64 arithmetic: exercised (flag n_int64) for k <= 3 and n <= 20000, where no "
+    "intermediate product reaches 2^63 (it does for k = 4 beyond n ~ 13000 and for k = 3 beyond n ~ 3.8e6); the only call site passes "
+    "predictions.shape[1], a Python int; beyond that regime 'for all n' presumes Python ints (assumption 1).  A numpy int64 INDEX (what "
+    "rng.choice returns) only enters a comparison and is exercised at every size",
 ]
 EXPLANATION = ("Model: Model/Unrank.v (the generator, statement by statement, incl. the `n_ck -= n_ck % k` line), "
                "Model/Binom.v (binomial, rank, descending-below, tuple order, the use-site triples). All theorems are "
@@ -74,9 +84,13 @@ EXPLANATION = ("Model: Model/Unrank.v (the generator, statement by statement, in
 _MAXK_EXH = 4
 
 
-def _g(index, n, k):
+def _g(index, n, k, n_int64=False, index_int64=False):
     from batchie.scoring.gaussian_dbal import get_combination_at_sorted_index
-    return get_combination_at_sorted_index(index, n, k)
+    return get_combination_at_sorted_index(np.int64(index) if index_int64 else index, np.int64(n) if n_int64 else n, k)
+
+
+def _np_flags(desc):
+    return dict(n_int64=bool(desc.get("n_int64")), index_int64=bool(desc.get("index_int64")))
 
 
 def py_rank(c):
@@ -180,10 +194,16 @@ def gen(rng, tier):
             idxs = _indices_of_interest(rng, n, k, 2 if quick else 5)
             rng.shuffle(idxs)
             for idx in idxs[: (6 if quick else 14)]:
-                yield dict(kind="unrank", index=idx, n=n, k=k)
+                d_ = dict(kind="unrank", index=idx, n=n, k=k)
+                if k <= 3 and rng.random() < 0.1:       # numpy integers instead of Python ints (gap G15.3)
+                    d_.update(rng.choice([dict(n_int64=True), dict(index_int64=True), dict(n_int64=True, index_int64=True)]))
+                yield d_
             for idx in idxs[(6 if quick else 14): (9 if quick else 22)]:
                 if idx + 1 < math.comb(n, k):
-                    yield dict(kind="succ", index=idx, n=n, k=k)
+                    d_ = dict(kind="succ", index=idx, n=n, k=k)
+                    if k <= 3 and rng.random() < 0.1:
+                        d_.update(rng.choice([dict(n_int64=True), dict(index_int64=True), dict(n_int64=True, index_int64=True)]))
+                    yield d_
     for _ in range(30 if quick else 300):  # larger k, moderate n
         n = rng.randint(5, 200)
         k = rng.randint(5, 8)
@@ -215,6 +235,12 @@ def gen(rng, tier):
         mc = rng.choice([1, 2, 5000, max(1, C - 1), max(1, C), C + 1, rng.randint(1, max(2, 2 * C))])
         yield dict(kind="use", n=n, max_combos=mc, seed=rng.randrange(2 ** 31),
                    stub=rng.choice(["numpy", "numpy", "reversed", "sorted", "tail"]))
+    # the junction at production size (gap G15.2): hundreds / thousands of posterior samples, C(n,3) up to 2.3e9 > 2^31 (numpy switches
+    # its sampling algorithm and answers with np.int64 that do not fit 32 bits), a small budget, one plate x one experiment
+    for n, stub in ([(400, "numpy"), (2400, "numpy"), (2400, "tail")] if quick else
+                    [(400, "numpy"), (400, "reversed"), (1000, "numpy"), (2344, "tail"), (2345, "tail"), (2400, "numpy"), (2400, "numpy"),
+                     (2400, "tail"), (2400, "reversed"), (3000, "numpy")]):
+        yield dict(kind="use", n=n, max_combos=rng.choice([50, 50, 64]), seed=rng.randrange(2 ** 31), stub=stub, n_plates=1, n_exp=1)
 
 
 def _run_scorer_history(desc):
@@ -278,7 +304,7 @@ def _run_use(desc):
     n, mc = desc["n"], desc["max_combos"]
     rec = _RecRng(desc["seed"], desc["stub"])
     data_rng = np.random.default_rng(desc["seed"] ^ 0x5A5A)
-    n_plates, n_exp = 2, 2
+    n_plates, n_exp = desc.get("n_plates", 2), desc.get("n_exp", 2)
     preds = data_rng.normal(size=(n_plates, n, n_exp))
     var = data_rng.uniform(0.5, 2.0, size=(n_plates, n, n_exp))
     dm = data_rng.uniform(0.1, 1.0, size=(n, n))
@@ -333,7 +359,7 @@ def _run_use(desc):
         # sum, or one that is counted twice, shows here
         import c05
         for p_i in range(n_plates):
-            ref = c05.direct_loop(preds[p_i].tolist(), var[p_i].tolist(), dm.tolist(), 1.0, [tuple(t) for t in triples])
+            ref = c05.direct_loop(preds[p_i].tolist(), var[p_i].tolist(), dm if n > 200 else dm.tolist(), 1.0, [tuple(t) for t in triples])
             got = float(np.asarray(out).reshape(-1)[p_i])
             if ref is None or abs(got - ref) > 1e-8 * max(1.0, abs(ref)):
                 pred = "plate %d scores %r; the estimator over the %d produced triples gives %r: not every produced triple is used exactly once" % (
@@ -341,6 +367,12 @@ def _run_use(desc):
                 break
         if C > 500:
             feats.append("more-than-500-triples")
+    if C >= 2 ** 31:
+        feats.append("C(n,3)>=2^31")
+        if any(i >= 2 ** 31 for i in draw):
+            feats.append("drawn-index>=2^31")
+    elif n >= 400:
+        feats.append("n>=400")
     return dict(wire=[2, n, mc, draw], impl=[call["a"], call["size"], triples], pred=pred, features=feats, cmp=cmp_result())
 
 
@@ -377,11 +409,11 @@ def run(desc):
         return dict(wire=[1, n, k], impl=outs, pred=pred, features=feats, cmp=_cmp_list_of_results)
     if kind == "unrank":
         index, n, k = desc["index"], desc["n"], desc["k"]
-        out = _canon_out(impl_call(_g, index, n, k))
+        out = _canon_out(impl_call(_g, index, n, k, **_np_flags(desc)))
         C = math.comb(n, k) if k >= 0 else 0
         in_range = k >= 0 and 0 <= index < C
         pred = pred_single(index, n, k, out) if in_range else None
-        feats = ["unrank"]
+        feats = ["unrank"] + [f for f in ("n_int64", "index_int64") if desc.get(f)]
         if in_range:
             feats += ["k=%d" % k if k <= 4 else "k>4", "n>1000" if n > 1000 else ("n>14" if n > 14 else "n<=14")]
             if C < 2:
@@ -398,10 +430,10 @@ def run(desc):
     if kind == "succ":
         index, n, k = desc["index"], desc["n"], desc["k"]
         C = math.comb(n, k)
-        a = _canon_out(impl_call(_g, index, n, k))
-        b = _canon_out(impl_call(_g, index + 1, n, k))
+        a = _canon_out(impl_call(_g, index, n, k, **_np_flags(desc)))
+        b = _canon_out(impl_call(_g, index + 1, n, k, **_np_flags(desc)))
         pred = pred_single(index, n, k, a) if 0 <= index < C else None
-        feats = ["succ", "k=%d" % k if k <= 4 else "k>4"]
+        feats = ["succ", "k=%d" % k if k <= 4 else "k>4"] + [f for f in ("n_int64", "index_int64") if desc.get(f)]
         if 0 <= index and index + 1 < C:
             pred = pred or pred_single(index + 1, n, k, b)
             if pred is None:
